@@ -90,6 +90,12 @@ func genMux(p *simkit.Plan, r *simkit.Rand, tier string) {
 	}
 	c["yields"] = int64(r.Intn(1 << len(yieldSites)))
 	c["sched_sticky"] = int64(simkit.Pick(r, []int{0, 30, 60, 90}))
+	// Stalls: everything parked (carrier deliveries, clients, yields) stays
+	// parked while simulated time passes - deadlines expire, heartbeats are due.
+	c["sched_stall"] = int64(simkit.Pick(r, []int{0, 0, 0, 10, 40}))
+	if c["sched_stall"] > 0 {
+		c["hbrecv_ms"] = 0 // (a stalled carrier may legitimately miss a receive timeout)
+	}
 	nclients := r.Range(1, 3)
 	c["clients"] = int64(nclients)
 	nstreams := r.Range(1, 6)
@@ -782,6 +788,7 @@ func execMux(t *testing.T, plan *simkit.Plan) *simkit.Result {
 		h.mu.Lock()
 		h.stop = true
 		h.mu.Unlock()
+		s.StopFaults() // no stalls while the streams are drained
 		s.SetBudget(60000, 120*time.Second)
 		for _, sd := range []*side{h.A, h.B} {
 			sd := sd
